@@ -368,6 +368,14 @@ def oracle_real(case: dict, r: Any) -> Optional[Tuple[str, str]]:
     if r.get('raised'):
         return ('raises:' + r.get('stage', '?'), '%s raised %s at %s' % (r.get('stage'), r['raised'], r.get('where')))
     doc = r.get('docstring')
+    if r.get('to_node_failed') and doc:
+        # an internal failure of the renderer happened while this object was rendered
+        if not r['in_parse_errors'] or r['reports_obj'] < 1:
+            return ('internal_unreported', 'renderer failure (%s) but nothing is reported against the object; body shown: %r'
+                    % (r['to_node_failed'], r.get('body_html', '')[:120]))
+        if r['body_kind'] != 'pre' or r.get('pre_text') != doc:
+            return ('internal_textlost', 'renderer failure (%s) but the body is not the whole docstring as plain text: %r'
+                    % (r['to_node_failed'], r.get('body_html', '')[:120]))
     if r.get('flatten_error') and not re.search('[\ud800-\udfff]', case['text']):
         return ('flatten', 'the result cannot be flattened: %s' % r['flatten_error'])
     gave_up = r.get('parser_raised')
@@ -558,6 +566,7 @@ class Gen:
 
 
 CORPUS_REAL = [
+    'Summary\n\n  @param x: foo\n@return: bar', 'S\n @v: a\n@d: b', 'Summary.\n\n    @param a: indented\n@return: r\n@rtype: int',
     'L{unclosed', 'hello }', '@param x: y\n\ntext after field', 'Heading\n====\nshort underline', '`unclosed',
     'Title\n==\n\ntext', ':param x: y\n  bad\n indent', 'Args:\n    x (List[int): d', 'Parameters\n----------\nx : {1, 2',
     '\x00', '\ud800', 'a\x0cb', 'a\rb\r\nc', '\ufeffbom', 'x' * 2500, '@type x: List[int', ':type x: List[int',
@@ -784,7 +793,8 @@ class Check(PropertyCheck):
             texts.append(g.text())
         for stream, t in texts:
             for f in fmts:
-                out.append({'k': 'real', 'text': t, 'fmt': f, 'pt': k % 2, 'kind': kinds[(k // 2) % len(kinds)], 'stream': stream})
+                out.append({'k': 'real', 'text': t, 'fmt': f, 'pt': k % 2, 'kind': kinds[(k // 2) % len(kinds)], 'stream': stream,
+                            'order': ('sdt', 'dst', 'tds')[(k // 3) % 3]})
                 k += 1
             k += 1
         return out
@@ -823,6 +833,12 @@ class Check(PropertyCheck):
                 self.count('real_parser_gave_up')
             if r.get('in_parse_errors'):
                 self.count('real_in_parse_errors')
+            if r.get('fallback_called'):
+                self.count('real_renderer_fallback')
+            if r.get('to_node_failed'):
+                self.count('real_to_node_failed')
+            if r.get('recovered_errs'):
+                self.count('real_recovered_errors')
             if r.get('body_kind'):
                 self.count('real_body_%s' % r['body_kind'])
             o = oracle_real(c, r)
@@ -830,7 +846,7 @@ class Check(PropertyCheck):
                 self.count('oracle_real_' + o[0].split(':')[0])
                 if len([v for v in out if v.kind == 'oracle' and v.what.startswith('[%s]' % o[0])]) < int(os.environ.get('C08_MAXV', '3')):
                     out.append(Violation('oracle', '[%s] %s' % o, case=c, observed={k: r.get(k) for k in
-                                         ('raised', 'where', 'stage', 'body_kind', 'in_parse_errors', 'reports_obj',
+                                         ('raised', 'where', 'stage', 'body_kind', 'in_parse_errors', 'reports_obj', 'to_node_failed',
                                           'parser_raised', 'hang', 'body_html', 'other', 'other_ref', 'parse_errors')}))
         self.evaluations += len(cases)
         self.stats['real_max_wall_s'] = max([r.get('wall_s', 0) for r in impl] or [0])
@@ -858,6 +874,41 @@ class Check(PropertyCheck):
         self.evaluations += len(cases)
         self.stats['epytail_lists'] = len(cases)
 
+    def run_epynode(self, out: List[Violation]) -> None:
+        texts = ['hello', '', 'Summary\n\n  @param x: foo\n@return: bar', 'S\n @v: a\n@d: b', 'L{x}\n\n@param a: b',
+                 'Title\n=====\ntext', ' @a:\n-', 'a\n\n  - item\n\n@note: n', '@return: r', '  @ivar x: y\n@ivar z: w']
+        g = Gen(self.rng)
+        for _ in range(60 if self.tier == 'quick' else 2000):
+            texts.append(g.mutate(self.rng.choice(EPY) + self.rng.choice(SEPS) + self.rng.choice(EPY)))
+        cases = [{'k': 'epynode', 'text': t, 'ncalls': 3} for t in texts]
+        impl = lib.run_impl_worker(WORKER, cases, jobs=1)
+        minputs, mcases = [], []
+        for c, r in zip(cases, impl):
+            if 'calls' not in r:
+                continue            # the parser itself gave up: no ParsedEpytextDocstring to look at
+            first = r['calls'][0]
+            conv = [] if first[0] == 'raised' else [1]
+            minputs.append(enc([2, 1 if r['has_tree'] else 0, conv, len(r['calls'])]))
+            mcases.append((c, r))
+        mod = self.model('docflow', minputs)
+        for (c, r), m in zip(mcases, mod):
+            want = [['raised'] if x[0] == 1 else ['returned', 'empty' if x[1] == 0 else 'doc'] for x in dec(m)]
+            got = [['raised'] if x[0] == 'raised' else ['returned', 'empty' if x[2] == 0 else 'doc'] for x in r['calls']]
+            if not r['has_tree']:
+                got = [['returned', 'empty'] if g_ == ['returned', 'doc'] else g_ for g_ in got]
+            self.count('epynode_first_' + r['calls'][0][0])
+            if want != got:
+                out.append(Violation('correspondence', 'ParsedEpytextDocstring.to_node differs from Model.DocFlow.epytext_to_node',
+                                     case=c, expected=want, observed=got))
+            # the property, directly: a renderer that fails must keep failing (or the failure is hidden from the caller
+            # that would have fallen back to plain text and reported it)
+            if r['calls'][0][0] == 'raised' and any(x[0] != 'raised' for x in r['calls'][1:]):
+                out.append(Violation('oracle', '[to_node_poison] ParsedEpytextDocstring.to_node raised %s on the first call and '
+                                     'returned a document with %d children on the second' % (r['calls'][0][1], r['calls'][1][2]),
+                                     case=c, observed=r['calls']))
+        self.evaluations += len(cases)
+        self.stats['epynode_texts'] = len(cases)
+
     def correspondence(self) -> List[Violation]:
         out: List[Violation] = []
         ex = self.exhaustive_cases()
@@ -869,6 +920,7 @@ class Check(PropertyCheck):
         rn = self.random_cases(1500 if self.tier == 'quick' else 40000)
         self.run_inject(rn, out, 'random')
         self.run_epytail(out)
+        self.run_epynode(out)
         real = self.real_cases(1500 if self.tier == 'quick' else 20000)
         self.stats['real_calls'] = len(real)
         self.run_real(real, out)
@@ -886,15 +938,28 @@ class Check(PropertyCheck):
         return [v for v in out if v.kind == 'oracle'][:3]
 
     def classify_known(self, v: Violation, known: List[dict]) -> Optional[dict]:
+        if v.kind != 'oracle':
+            return None
+        c = v.case if isinstance(v.case, dict) else {}
+        obs = v.observed if isinstance(v.observed, dict) else {}
         for k in known:
             m = k.get('match', {})
-            if v.kind == 'oracle' and m.get('oracle_class') and v.what.startswith('[%s]' % m['oracle_class']):
-                c = v.case or {}
-                if m.get('stream') == 'inject' and c.get('k') == 'inject':
-                    if m['oracle_class'] == 'toc_raises' and toc_raise_explained(c):
-                        return k
-                    if m['oracle_class'] == 'isolation_split' and c.get('kind') == 'split':
-                        return k
+            if not v.what.startswith('[%s]' % m.get('oracle_class')):
+                continue
+            if m.get('stream') != c.get('k'):
+                continue
+            if m['stream'] == 'inject':
+                if m['oracle_class'] == 'toc_raises' and toc_raise_explained(c):
+                    return k
+                if m['oracle_class'] == 'isolation_split' and c.get('kind') == 'split':
+                    return k
+            elif m['stream'] == 'epynode':
+                return k
+            elif m['stream'] == 'real':
+                # pinned to the exact internal failure: epytext's converter meeting a field list that was left in the tree
+                sig = m['failure']
+                if c.get('fmt') == 'epytext' and (sig in (obs.get('to_node_failed') or '') or sig in (obs.get('raised') or '')):
+                    return k
         return None
 
     def replay(self, data: Any) -> int:
@@ -926,6 +991,12 @@ class Check(PropertyCheck):
                                                                   'other', 'other_ref')})[:3000])
             print('property :', ('VIOLATED [%s] %s' % o) if o else 'holds on this input')
             return 1 if o else 0
+        if case['k'] == 'epynode':
+            print('docstring:', repr(case['text']))
+            print('to_node() calls:', r.get('calls'))
+            bad = 'calls' in r and r['calls'][0][0] == 'raised' and any(x[0] != 'raised' for x in r['calls'][1:])
+            print('property :', 'VIOLATED: the first call raised, a later call returned an (empty) document' if bad else 'holds on this input')
+            return 1 if bad else 0
         if case['k'] == 'epytail':
             allf = case.get('pre', []) + case['errors']
             direct = ['raised', allf.index(1), True] if 1 in allf else ['returned', 'Element']
